@@ -50,6 +50,12 @@ Sensitivity (quick tier, seed 1, scratch copy of /repo/tornado, one mutant at a 
      back-references beyond the smaller window / into the previous message)               -> C14.messages_received
      (systematic since the deterministic part `deflate_grid`: 2 reference-peer set-ups x 64 parameter combinations x 6
      far-back-referencing messages in both directions; before that the Hypothesis part caught it at some seeds only)
+  M11 _receive_frame: the max_message_size test lost its `not opcode_is_control` guard (a ping/pong between fragments is
+     sized as its payload + the bytes buffered so far) -> C14.messages_received (the legal message and everything after it
+     are lost, 1009 sent), seeds 1-3.  max_message_size is now a generated dimension of `main` (None / 300 / 1024 / 4096; with
+     a limit every rep/raw message is sized limit-k, k = drawn length mod 131, label
+     control_frame_between_fragments_near_limit) and the deterministic part `limit_grid` enumerates 2 set-ups x limits
+     {256,1024} x k in {0,1,60,123,124,125,130} x ping/pong x payload {1,125} x 3 late split points.
   M10 control-frame length check off by one (`payloadlen >= 125`): a ping with the maximal legal payload of 125 bytes
      aborts the connection                                                                -> C14.pongs / C14.connection_closed
      (125-byte pings in the gaps and, since this round, 0/124/125-byte stand-alone pings)
@@ -158,6 +164,9 @@ case_s = st.fixed_dictionaries({
     "masks": st.lists(st.binary(min_size=4, max_size=4), min_size=1, max_size=3),
     "callback_mode": st.booleans(),
     "seed": st.binary(min_size=1, max_size=3),
+    # websocket_max_message_size / max_message_size of the Tornado side(s).  When set, every rep/raw message is sized
+    # limit-k with k = drawn length mod 131, i.e. legal but within a control frame's reach (125 bytes) of the limit
+    "limit": st.sampled_from([None, None, None, 300, 1024, 4096]),
 })
 wbits8_case_s = st.fixed_dictionaries({
     "setup": st.sampled_from(["ref_to_server", "ref_to_client"]),
@@ -217,6 +226,24 @@ def budget_ops(ops, limit=200 * 1024):
     return out
 
 
+def near_limit_ops(ops, limit, slack=0):
+    """Resize the messages of a session with a size limit to limit-slack-k, k in 0..130 (all of them legal).
+    slack: room for the few bytes by which Tornado's own compressor may make an incompressible message longer."""
+    if limit is None:
+        return ops
+    out = []
+    for op in ops:
+        if op[0] in ("in", "out") and op[1]["content"][0] in ("rep", "raw"):
+            c = op[1]["content"]
+            out.append((op[0], dict(op[1], content=(c[0], limit - slack - c[1] % 131) + tuple(c[2:]))))
+        elif op[0] in ("in", "out") and op[1]["content"][0] == "rawrep":
+            c = op[1]["content"]
+            out.append((op[0], dict(op[1], content=(c[0], min(c[1], limit - slack)) + tuple(c[2:]))))
+        else:
+            out.append(op)
+    return out
+
+
 class MaskSource:
     def __init__(self, masks):
         self.masks, self.i = list(masks), 0
@@ -227,12 +254,21 @@ class MaskSource:
         return bytes(m)
 
 
-def encode_in_message(m, payload, deflater, masks):
+def encode_in_message(m, payload, deflater, masks, limit=None):
     """Frames for one generated message incl. the control frames in its gaps.
     -> (wire bytes, info dict, list of ping payloads in wire order)."""
     opcode = wsref.OP_BINARY if m["binary"] else wsref.OP_TEXT
     compressed = deflater is not None and m["compress"]
-    body = deflater.compress_message(payload, m["flush"]) if compressed else payload
+    if compressed:
+        snap = deflater.snapshot()
+        body = deflater.compress_message(payload, m["flush"])
+        if limit is not None and len(body) > limit:
+            # incompressible data grows a little under DEFLATE; a frame above the limit *as carried* is refused
+            # (C15), so this legal message goes uncompressed -- and the reference compressor forgets it
+            deflater.restore(snap)
+            compressed, body = False, payload
+    else:
+        body = payload
     cuts = sorted(len(body) * c // 1000 for c in m["cuts"])
     frags = wsref.split_at(body, cuts)
     gaps = {}
@@ -279,6 +315,7 @@ def msg_labels(labels, payload, info=None):
             labels.add("fragmented_plain_with_ping")
 
 
+
 def compare_received(ctx, got, sent, infos, clause, detail):
     """got/sent: lists of message values; infos: per sent message the encoder info (or None).
     -> True if everything matched.  A mismatch is attributed to the first differing message."""
@@ -318,14 +355,18 @@ def run_ref(ctx, case):
     to_server = setup == "ref_to_server"
     labels = {"setup_" + setup, "dir_to_server" if to_server else "dir_to_client"}
     d = case["deflate"]
-    ops = budget_ops(case["ops"])
+    limit = case.get("limit")
+    ops = budget_ops(near_limit_ops(case["ops"], limit))
     out = {"nontrivial": False}
+    if limit is not None:
+        labels.add("limit_set")
 
     async def scenario():
         rec = H.Recorder()
         # ---- real handshake
         if to_server:
-            app = H.make_app(rec, compression=case["options"] if d is not None else None)
+            app = H.make_app(rec, compression=case["options"] if d is not None else None,
+                             settings={"websocket_max_message_size": limit} if limit is not None else None)
             peer = H.RefClient(app, ext=H.offer_string(**deflate_kw(d)) if d is not None else None)
             ok = await peer.handshake(H.segments(len(peer.request), case["hs_segs"], cap=3, bulk=1 << 20))
             if not ok:
@@ -336,6 +377,8 @@ def run_ref(ctx, case):
             ref_role, tor_role = "client", "server"
         else:
             kw = {"compression_options": case["options"]} if d is not None else {}
+            if limit is not None:
+                kw["max_message_size"] = limit
             cl = H.ClientSide(callback_mode=case["callback_mode"], **kw)
             peer = H.RefServer(cl)
             if await peer.read_request() is None:
@@ -370,9 +413,11 @@ def run_ref(ctx, case):
             if op[0] == "in":
                 m = op[1]
                 payload = build_payload(m["content"], m["binary"])
-                data, info, pg = encode_in_message(m, payload, deflater, masks)
+                data, info, pg = encode_in_message(m, payload, deflater, masks, limit)
                 segs = H.segments(len(data), case["segs"])
                 msg_labels(labels, payload, info)
+                if limit is not None and info["controls_in_gaps"] and not info["compressed"] and len(payload) + 125 > limit:
+                    labels.add("control_frame_between_fragments_near_limit")
                 if (len(payload) >= 126 or info["fragments"] > 1 or info["compressed"]) and len(segs) >= 2:
                     out["nontrivial"] = True
                 sent_in.append(value_of(m, payload))
@@ -443,13 +488,22 @@ def run_ref(ctx, case):
 def run_pair(ctx, case):
     labels = {"setup_pair", "dir_to_server", "dir_to_client"}
     d = case["deflate"]
-    ops = budget_ops(case["ops"])
+    limit = case.get("limit")
+    # with deflate the *sending* Tornado may expand an incompressible message by a few bytes (stored blocks), and the
+    # receiving Tornado measures the frame as carried (DEFLATE with mem_level 1 / level 0 adds up to a few per cent):
+    # stay limit/8 (at least 64 bytes) clear of the limit
+    ops = budget_ops(near_limit_ops(case["ops"], limit, slack=max(64, (limit or 0) // 8) if d is not None else 0))
     out = {"nontrivial": False}
+    if limit is not None:
+        labels.add("limit_set")
 
     async def scenario():
         rec = H.Recorder()
-        app = H.make_app(rec, compression=case["options"] if d is not None else None)
+        app = H.make_app(rec, compression=case["options"] if d is not None else None,
+                         settings={"websocket_max_message_size": limit} if limit is not None else None)
         kw = {"compression_options": case["options"]} if d is not None else {}
+        if limit is not None:
+            kw["max_message_size"] = limit
         pair = H.Pair(app, client_kw=kw, callback_mode=case["callback_mode"])
         if not await pair.connect():
             return ctx.fail("C14.client_sent_no_request", {})
@@ -598,11 +652,32 @@ def deflate_grid():
                                "callback_mode": (cw or 0) % 2 == 0, "seed": b"g"}
 
 
-PARTS = {"main": run_case, "wbits8": run_wbits8, "deflate_grid": run_case}
+def limit_grid():
+    """Deterministic: a non-default max_message_size (256 / 1024) and legal messages of limit-k bytes, k in
+    {0,1,60,123,124,125,130}, fragmented so that (almost) everything is buffered when a ping or pong with a 1- or
+    125-byte payload arrives between the fragments; then a small message and a stand-alone ping.  Everything is legal:
+    all messages must arrive, the pings must be answered, the connection must stay open."""
+    def msg(k, cuts, gaps):
+        return {"binary": k % 2 == 0, "content": ("rep", k, 1), "cuts": cuts, "gaps": gaps, "every_gap": False, "compress": False, "flush": "sync"}
+    small = {"binary": False, "content": ("lit", "after"), "cuts": [], "gaps": [], "every_gap": False, "compress": False, "flush": "sync"}
+    for setup in ("ref_to_server", "ref_to_client"):
+        for limit in (256, 1024):
+            for k in (0, 1, 60, 123, 124, 125, 130):
+                for kind in ("ping", "pong"):
+                    for plen in (1, 125):
+                        for cuts in ([1000], [995], [500, 999]):
+                            gaps = [(len(cuts) - 1, kind, b"c" * plen)]
+                            yield {"setup": setup, "deflate": None, "options": {}, "ref": (6, 8), "limit": limit,
+                                   "ops": [("in", msg(k, cuts, gaps)), ("in", small), ("ping_in", b"q" * plen)],
+                                   "segs": [9, 200], "hs_segs": [], "masks": [b"\x0f\x1e\x2d\x3c"], "callback_mode": k % 2 == 1, "seed": b"l"}
+
+
+PARTS = {"main": run_case, "wbits8": run_wbits8, "deflate_grid": run_case, "limit_grid": run_case}
 
 
 def main(ctx):
     ctx.run_replays(PARTS)
     ctx.enumerate(deflate_grid(), run_case, name="deflate_grid")
+    ctx.enumerate(limit_grid(), run_case, name="limit_grid")
     ctx.explore(case_s, run_case, ctx.n(1000, 20000), name="main")
     ctx.explore(wbits8_case_s, run_wbits8, ctx.n(16, 200), name="wbits8")
